@@ -58,6 +58,8 @@ theorem translate_frozen {H m : Nat} {s s' : St} (f : Frozen H m s) (ch : Char) 
   · simp at h
   split at h
   · simp at h
+  split at h
+  · simp at h
   have hll : ¬ s.rows.length < lastLineOf s := by
     unfold lastLineOf; rw [f.hs]; simp only [Bool.true_and]
     split
@@ -164,7 +166,9 @@ theorem parseChar_frozen {H m : Nat} {s s' : St} (f : Frozen H m s) (ch : Char) 
   · split at h
     · injection h with h; subst h; exact ⟨f.hs, f.len, f.wide, f.st⟩
     · split at h
-      · obtain ⟨s1, h1, h2⟩ := andThen_ok h
+      · split at h
+        · simp at h
+        obtain ⟨s1, h1, h2⟩ := andThen_ok h
         have f1 := repeatN_frozen ch hc _ f h1
         injection h2 with h2; subst h2
         exact ⟨f1.hs, f1.len, f1.wide, by simp⟩
@@ -202,12 +206,16 @@ theorem sizeArm_frozen {s s1 : St} {W H : Nat} (hd : declared s.nums = some (W, 
     simp at h
     split at h
     · simp at h
+    split at h
+    · simp at h
     · injection h with h; subst h
       exact ⟨rfl, by simp only [length_resizeRows], by simp, by simp⟩
   · rename_i a b w h4 hs
     injection hd with hd; injection hd with h1 h2; subst h1; subst h2
     simp only [sizeArm, hs, List.length_cons, List.length_nil] at h
     simp at h
+    split at h
+    · simp at h
     split at h
     · simp at h
     · injection h with h; subst h
